@@ -136,6 +136,8 @@ class RuleHarness:
                 want = rrule.md001(mtoks)
             elif self.rule == "md018":
                 want = rrule.md018(lines, mtoks)
+                if want is None:
+                    return SKIP
             elif self.rule == "md019":
                 want = rrule.md019(lines, mtoks)
                 if want is None:
